@@ -150,6 +150,23 @@ Theorem C07_removed_not_reloadable :
 Proof. exact removed_not_reloadable. Qed.
 Print Assumptions C07_removed_not_reloadable.
 
+(** ** A subscription that gets into the table after the removal broadcast of its fabric
+    (accepted on the session the expiry / RemoveFabric keeps for its answer) is purged *)
+Theorem C07_late_subscription_purged_due :
+  forall st sid, Inv st -> nothing_left_behind (fst (step st (OSubscribeDue sid))).
+Proof. exact late_subscription_purged_due. Qed.
+Print Assumptions C07_late_subscription_purged_due.
+
+Theorem C07_late_subscription_purged_remove :
+  forall st sid i, Inv st -> nothing_left_behind (fst (step st (OSubscribeRemove sid i))).
+Proof. exact late_subscription_purged_remove. Qed.
+Print Assumptions C07_late_subscription_purged_remove.
+
+Theorem C07_purge_drops_fabricless :
+  forall st u, In u (st_subs (purge st)) -> has_fab (st_fabs st) (u_fab u) = true.
+Proof. exact purge_drops_fabricless. Qed.
+Print Assumptions C07_purge_drops_fabricless.
+
 (** ** Use *)
 (** a request answered OK travelled on a usable session of the current incarnation and
     touched no other fabric index *)
@@ -300,4 +317,16 @@ Example remove_then_expiry_stays_removed :
   store_tight_b (exec (init_state 2 true) ops) = true /\
   tight_b (exec (init_state 2 true) ops) = true /\
   monitor (init_state 2 true) (combine ops (snd (run (init_state 2 true) ops))) = [].
+Proof. vm_compute. repeat split; reflexivity. Qed.
+
+(** a SubscribeRequest arrives on the CASE session (name 4) of the staged fabric 3 when the
+    fail-safe timer is due: the rollback removes fabric 3 and keeps session 4, expired; the
+    subscription is accepted on it ([st_nsub] advances) and purged at once *)
+Example late_subscription_is_purged :
+  let ops := [OArm 1; OAddNoc 1 7; OEstablish 7; OSubscribeDue 4] in
+  let st := exec (init_state 2 true) ops in
+  map fst (snd (run (init_state 2 true) ops)) = [StOk; StOk; StOk; StOk] /\
+  has_fab (st_fabs st) 3 = false /\
+  sget 4 (st_sess st) = Some (mkSess 4 MCase 3 ADMIN true false 3) /\
+  st_subs st = [] /\ st_nsub st = 2 /\ tight_b st = true.
 Proof. vm_compute. repeat split; reflexivity. Qed.
